@@ -1,7 +1,8 @@
 """C28 — storage cleanup never deletes the local or delegate namespaces (structural).
 
 Decided: in Repository::clean every reference deletion is excluded after
-`*local == id` or `delegates.contains(&id)` held for the namespace being visited
+`*local == id` or the delegate membership test (contains / iter().any(==) / a binary
+search over a sorted sequence) held for the namespace being visited
 (and is dominated by both tests failing), the tested `id` is the one whose refs
 are globbed and the delegate set comes from self.delegates(); in Storage::clean
 the whole repository is removed only when the local node's signed refs are absent;
